@@ -112,7 +112,7 @@ SeenFlags(seen, h2, g2, x2) ==
   IN (IF \E j \in 1..Len(seen) : bad(seen[j]) THEN {"C06"} ELSE {})
      \cup (IF \E j \in 1..Len(seen) : badW(seen[j]) THEN {"C05"} ELSE {})
 
-DropOps  == {"DropRoot", "DropStored", "DecStrong", "MakeMut"}      \* calls that drop a strong handle
+DropOps  == {"DropRoot", "DropStored", "DecStrong", "MakeMut", "MakeMutS"}      \* calls that drop a strong handle
 CloneOps == {"CloneRoot", "CloneStored"}
 
 MonStep ==
@@ -150,7 +150,7 @@ MonStep ==
                  c14 == IF ln.depth = 0 /\
                            \/ ln.op \in {"DropRoot", "DropStored", "DecStrong"} /\ ob.empty0
                               /\ (ln.cnt.ntrace1 > 0 \/ ln.cnt.nalloc1 > 0)
-                           \/ ln.op = "MakeMut" /\ ob.empty0 /\ ln.cnt.ntrace1 > 0
+                           \/ ln.op \in {"MakeMut", "MakeMutS"} /\ ob.empty0 /\ ln.cnt.ntrace1 > 0
                            \/ ln.op \in CloneOps /\ (ln.cnt.ntrace > 0 \/ ln.cnt.nalloc > 0)
                         THEN {"C14"} ELSE {}
                  sf == IF ln.depth = 0 THEN SeenFlags(ln.seen, h2, g2, x1) ELSE {}
@@ -234,15 +234,19 @@ MonAccepted ==
 -----------------------------------------------------------------------------
 (* Conform *)
 
+\* the allocation a make_mut in progress has created is registered by the harness only when
+\* the call returns: until then it is missing from the logged observations
+Unregistered(x, i, r) == /\ r.mem = "none" /\ x.call.op \in {"MakeMut", "MakeMutS"} /\ x.call.b = i
+ObjMatches(h, x, i, r) ==
+  /\ h.mem[i] = r.mem
+  /\ r.mem = "alloc" =>
+       /\ h.strong[i] = r.strong /\ h.weak[i] = r.weak
+       /\ h.vinit[i] = r.vinit /\ h.linit[i] = r.linit
+       /\ r.linit => h.tbl[i] = r.tbl /\ h.links[i] = LinksOf(r)
+  /\ x.nd[i] = r.nd /\ x.nf[i] = r.nf
 HeapMatches(h, x, obs) ==
   /\ \A i \in Obj :
-       LET r == ObjRec(obs, i) IN
-       /\ h.mem[i] = r.mem
-       /\ r.mem = "alloc" =>
-            /\ h.strong[i] = r.strong /\ h.weak[i] = r.weak
-            /\ h.vinit[i] = r.vinit /\ h.linit[i] = r.linit
-            /\ r.linit => h.tbl[i] = r.tbl /\ h.links[i] = LinksOf(r)
-       /\ x.nd[i] = r.nd /\ x.nf[i] = r.nf
+       LET r == ObjRec(obs, i) IN Unregistered(x, i, r) \/ ObjMatches(h, x, i, r)
   /\ (x.ub = {}) = (Len(obs.ub) = 0)
 
 \* micro-steps that leave no line in the trace
@@ -268,7 +272,7 @@ ConfStep ==
                    /\ AtTop
                    /\ HeapMatches(heap, ob, ln.obs)
                    /\ CallOp(ln.op, ln.a, ln.b, ln.d, TRUE, <<>>)
-                   /\ ln.op = "MakeMut" /\ ob'.ub = {} /\ ctl'.mode = "run" => ob'.call.b = ln.b
+                   /\ ln.op \in {"MakeMut", "MakeMutS"} /\ ob'.ub = {} /\ ctl'.mode = "run" => ob'.call.b = ln.b
                 [] ln.k = "call" /\ ln.depth > 0 ->
                    /\ AtDtorPoint
                    /\ LET c == ScriptCall(led.dtor[Top.o]) IN c.op = ln.op /\ c.a = ln.a /\ c.b = ln.b
